@@ -52,6 +52,8 @@ func (w *World) Legal(op Op) bool {
 		return s.Foreign[op.Key] != nil
 	case OpSetPred:
 		return true
+	case OpScheduleRace:
+		return op.Race != ""
 	case OpHostile:
 		for _, n := range op.Need {
 			kind, id, _ := strings.Cut(n, ":")
